@@ -27,6 +27,9 @@ def run(ctx):
     hs = ctx.build_harness("h_solver")
     ctx.pipe([hs, "levels", "300" if ctx.tier == "quick" else "1100"], "options", label="chooseNumberOfLevels-all-sizes")
     ctx.pipe([exe, "files", "12" if ctx.tier == "quick" else "120"], "gridgen", env=env, label="file-round-trip")
+    for lab, args in (("parametric-constructor", ["gen", "12" if ctx.tier == "quick" else "1"]), ("file-round-trip", ["files", "12" if ctx.tier == "quick" else "120"])):
+        if any(b[0].startswith("harness " + lab) for b in ctx.broken):
+            ctx.crash_probe([exe, *args], lab + "-crash", start_re=r"^(GEN|FILECASE|BADFILE)\b", env=env)
     ctx.assumptions += ["values are exact rationals in the model; the C++ computes them in double (compared within 2^-40*Rmax)",
                         "iostream formatting is exercised (round trip), not modelled",
                         "files written with fewer than 16 digits are rejected by the loader's own validity checks (last angle = 2*pi and antipodal "
